@@ -30,7 +30,7 @@ PROPS_ADD = {
         "stub": ["raftstore client + PD TSO (variant backend=1): ideal single-region percolator store of the harness"],
     },
     "C30": {
-        "engine": "redissim", "level": "exploration", "budget": {"quick": 10, "thorough": 600},
+        "engine": "redissim", "level": "exploration", "budget": {"quick": 28, "thorough": 600},
         "title": "Concurrent Redis clients never lose updates",
         "technique": "deterministic simulation: 2-4 connections served by the real handleConn as scheduler tasks issue INCR/INCRBY/DECRBY and SET NX on shared keys; a seeded scheduler interleaves them at backend-call boundaries, at the verifhook yield sites inside the transaction path, at the SUT's own blocking points (WaitForMark, commit wait) and, for the raft-backed variant, at every raftClient/TSO call",
         "rule": "case = per-connection command scripts + configuration (connections, counters, NX keys, backend) + scheduler choice tape; oracle: final GET of every counter = initial value + sum of the deltas of the commands that replied an integer, at most one SET NX per absent key replied OK; distinct = distinct event-trace hash (scheduler decisions included); non-trivial = backend calls of different connections alternated at least twice",
